@@ -180,7 +180,7 @@ def frac_of(v):
 
 BINOPS = {"add": "+", "sub": "-", "mul": "*", "div": "/"}
 BITOPS = {"and": "bitand_", "shl": "shl_", "shr": "shr_", "rem": "rem_"}
-FUN1 = {"ln": "ln", "exp": "exp", "sqrt": "sqrt", "tan": "tan", "abs": "Abs", "floor": "floor", "ceil": "ceiling"}
+FUN1 = {"ln": "ln", "exp": "exp", "sqrt": "sqrt", "tan": "tan", "abs": "Abs", "floor": "floor", "ceil": "ceiling", "signum": "sign"}
 
 
 SPECS = [(_beta_new_spec() if x == "@BETA_NEW@" else x) for x in SPECS]
@@ -203,6 +203,7 @@ class Namer:
                     break
         self.unnamed = [d for d in draws_in_order if d not in self.draw_names]
         self.missing = want
+        self.env_self = None
         st = None
         if inst["arg_count"] >= 1:
             t = F.types[inst["locals"][1]["ty"]]
@@ -210,6 +211,14 @@ class Namer:
                 t = F.types[t["to"]]
             if t["k"] == "adt":
                 st = t
+            elif t["k"] == "closure" and t.get("upvars"):
+                # a closure that captures `self`: (*_1).0 is the captured reference, named `self` below
+                u = F.types[t["upvars"][0]]
+                while u["k"] == "ref":
+                    u = F.types[u["to"]]
+                if u["k"] == "adt":
+                    st = u
+                    self.env_self = ("field", ("var", "_1"), 0)
         self.self_ty = st
         self.params = {}
         self.param_adts = {}
@@ -235,6 +244,9 @@ class Namer:
                 steps.append(("d", cur[2].split(":", 1)[1]))
             cur = cur[1]
         root_name = None
+        if self.env_self is not None and steps and cur == ("var", "_1") and steps[-1] == ("f", 0):
+            steps.pop()
+            cur = ("var", "self")
         if cur == ("var", "self") and self.self_ty is not None:
             ty = self.self_ty
         elif isinstance(cur, tuple) and cur and cur[0] == "var" and cur[1] in self.param_adts and steps:
@@ -294,8 +306,21 @@ class Namer:
         if k in ("field", "proj"):
             fp = self.field_path(t)
             if fp is None:
+                if k == "field" and isinstance(t[2], int) and isinstance(t[1], tuple) and t[1] and t[1][0] == "call" and t[1][1] == "call":
+                    return "tupget_(%s, %d)" % (self.sym(t[1]), t[2])      # a component of the tuple a local closure returns
                 raise NoForm(fmt(t)[:60])
             return self.rename.get(fp, fp)
+        if k == "call" and t[1] == "call" and len(t) == 4 and isinstance(t[2], tuple) and t[2][:2] == ("agg", "closure") and isinstance(t[3], tuple) and t[3][:2] == ("agg", "tuple"):
+            # a call of a local closure whose body has branches (not inlined): an uninterpreted function of the arguments, named after the closure's index
+            m_ = re.search(r"\{closure#(\d+)\}$", str(t[2][2]))
+            if m_ and all(c == ("var", "self") for c in t[2][3:]):
+                return "closure%s_(%s)" % (m_.group(1), ", ".join(self.sym(a) for a in t[3][3:]))
+        if k == "idx" and isinstance(t[1], tuple) and t[1][0] == "carray":
+            # a constant table indexed by a variable: the reference names its tables (spec["tables"]: name -> values); an unknown table is a different function
+            for tn, vals in self.spec.get("tables", {}).items():
+                if len(vals) == len(t[1][1]) and all(float(a_) == float(b_) for a_, b_ in zip(vals, t[1][1])):
+                    return "%s(%s)" % (tn, self.sym(t[2]))
+            return "table_%d_(%s)" % (abs(hash(t[1][1])) % 100000, self.sym(t[2]))
         if k in BINOPS:
             return "((%s) %s (%s))" % (self.sym(t[1]), BINOPS[k], self.sym(t[2]))
         if k in BITOPS:
@@ -314,6 +339,14 @@ class Namer:
                 return "((%s)**(%s))" % (self.sym(args[0]), self.sym(args[1]))
             if name == "recip" and len(args) == 1:
                 return "(1/(%s))" % self.sym(args[0])
+            if name == "ln_1p" and len(args) == 1:
+                return "ln(1 + (%s))" % self.sym(args[0])
+            if name == "exp_m1" and len(args) == 1:
+                return "(exp(%s) - 1)" % self.sym(args[0])
+            if name == "mul_add" and len(args) == 3:
+                return "((%s)*(%s) + (%s))" % tuple(self.sym(a) for a in args)
+            if name == "cbrt" and len(args) == 1:
+                return "((%s)**Rational(1,3))" % self.sym(args[0])
             if name == "from_residual":
                 return "Err"
             if name == "not" and len(args) == 1:
@@ -336,6 +369,23 @@ class Namer:
                 return self.sym(args[0])
             if name == "from" and args:
                 return self.sym(args[-1])
+            if name == "fold" and len(args) == 3 and isinstance(args[2], tuple) and args[2][:2] == ("agg", "closure"):
+                # a fold over a constant table is unrolled through the closure's body (Horner evaluation of a polynomial)
+                it, rev = args[0], False
+                if it[0] == "call" and it[1] == "rev" and len(it) == 3:
+                    it, rev = it[2], True
+                if it[0] == "call" and it[1] == "iter" and len(it) == 3:
+                    it = it[2]
+                if it[0] == "carray" and len(it[1]) <= 64:
+                    import algsum
+                    acc = args[1]
+                    for v in (reversed(it[1]) if rev else it[1]):
+                        acc = algsum.closure_body(self.F, args[2][2], list(args[2][3:]), [acc, ("const", v)])
+                        if acc is None:
+                            raise NoForm("fold with a closure that is not straight-line")
+                    return self.sym(acc)
+            if name in ("to_usize", "to_u64", "to_i32", "to_i64", "to_u32") and len(args) == 1:
+                return self.sym(args[0])
             # a sub-sampler: `x.sample(rng)` / `x.sample_unscaled(rng)` with x a field path of self (or self): an opaque variate
             if name.startswith("sample") and args:
                 recv = args[0]
@@ -373,7 +423,21 @@ def subst_let(expr, let):
     for _ in range(4):
         for k, v in let.items():
             expr = re.sub(r"\b%s\b" % re.escape(k), "(" + v + ")", expr)
-    return expr
+    return canon(expr)
+
+
+_CANON = {}
+
+
+def canon(expr):
+    """The expression without redundant parentheses (`f((N - n), K)` and `f(N - n, K)` are one test of the reference, not two)."""
+    if expr not in _CANON:
+        try:
+            import ast
+            _CANON[expr] = ast.unparse(ast.parse(expr.strip(), mode="eval"))
+        except Exception:      # noqa: BLE001
+            _CANON[expr] = expr
+    return _CANON[expr]
 
 
 def collect_draws(summary):
@@ -448,6 +512,8 @@ def run_specs(chk, F, specs, floor_n):
             for j_ in jobs[before_:]:
                 if spec.get("subs"):
                     j_["subs"] = spec["subs"]          # domain of the parameters made explicit (e.g. N = K + n + s, s > 0)
+                if spec.get("points"):
+                    j_["points"] = spec["points"]      # test points inside the algorithm's domain (where every logarithm and root is real)
     chk.floor("sampler / constructor instances compared with their reference", nfun, floor_n)
     if not jobs:
         return
@@ -685,6 +751,8 @@ def build_case(chk, F, inst, spec, key, where, jobs, ctx, summ, paths):
                     continue
                 jid = "%s|atom|%d" % (key, i)
                 jobs.append({"id": jid, "symbols": spec["symbols"], "term": arg, "accepted": [c["spec_atoms"][k][1] for k in cands], "relative": True})
+                if len(c["spec_atoms"]) > 14:
+                    jobs[-1]["variant_of"] = 0
                 c["atoms"][i] = (jid, "eq", "%s(%s)" % (kind[5:], arg), [(k, False) for k in cands])
                 continue
             if kind == "flag":
@@ -731,6 +799,8 @@ def build_case(chk, F, inst, spec, key, where, jobs, ctx, summ, paths):
         dterm = (sa_ if sb_ in ("oo", "(-oo)") else sb_) if inf_side else "(%s) - (%s)" % (sa_, sb_)
         jid = "%s|atom|%d" % (key, i)
         jobs.append({"id": jid, "symbols": spec["symbols"], "term": dterm, "accepted": accepted or ["0*0 + 123456789"], "relative": True})
+        if len(c["spec_atoms"]) > 14:
+            jobs[-1]["variant_of"] = 0          # report every identical reference test, not only the first (see judge: aclass)
         c["atoms"][i] = (jid, kind, dterm, back)
     for pi_, p in enumerate(paths):
         if p["outcome"][0] == "return":
@@ -915,6 +985,8 @@ def build_ts_jobs(chk, F, inst, spec, key, where, jobs, ctx):
                     continue
                 jid = "%s|atom|%d" % (key, i)
                 jobs.append({"id": jid, "symbols": spec["symbols"], "term": arg, "accepted": [c["spec_atoms"][k][1] for k in cands], "relative": True})
+                if len(c["spec_atoms"]) > 14:
+                    jobs[-1]["variant_of"] = 0
                 c["atoms"][i] = (jid, "eq", "%s(%s)" % (kind[5:], arg), [(k, False) for k in cands])
                 continue
             if kind == "flag":
@@ -1103,6 +1175,7 @@ def judge(chk, key, c, res):
     conds = [("flag " + a[1]) if a[0] == "flag" else ("%s(%s)" % (a[0][5:], a[1]) if a[0].startswith("call:") else "%s %s %s" % (a[1], "==" if a[0] == "eq" else "<", a[2])) for a in c.get("spec_atoms", [])]
     # A: atom matching
     amap = {}
+    aclass = {}         # implementation atom -> every reference test it is identical to (two spellings of one test in the reference are one test)
     for i, (jid, kind, dterm, back) in c["atoms"].items():
         if jid is None:
             amap[i] = back
@@ -1110,6 +1183,7 @@ def judge(chk, key, c, res):
         v = res[jid]
         if v["verdict"] == "equal":
             amap[i] = back[v["form"]]
+            aclass[i] = [back[f_] for f_ in (v.get("forms") or [v["form"]])]
         elif v["verdict"] == "different":
             chk.violation("algorithm", key + ":test", "%s decides on `%s %s`, which is not a test of the reference algorithm %s (%s)"
                           % (name, v.get("term"), "== 0" if kind == "eq" else "< 0", [x[:70] for x in conds], v["detail"][:160]), where=c["where"])
@@ -1213,6 +1287,56 @@ def judge(chk, key, c, res):
             if a_ in c["spec_atoms"]:
                 idx.append(c["spec_atoms"].index(a_))
         excl.append(idx)
+    if nsa > 14:
+        # too many tests for the truth table: compare path pairs instead (a reference path and an implementation path that can hold together
+        # must end the same way; every reference path must have an implementation path) — the same statement, polynomial in the paths
+        sps = spec_paths(c["lists"], {}, "main", let)
+        npairs = 0
+        for slits, sout in sps:
+            if any(sum(1 for k in grp if slits.get(k)) > 1 for grp in excl):
+                continue
+            met = False
+            for pi_, p in enumerate(paths):
+                if pi_ in dead:
+                    continue
+                need, okp = {}, True
+                for lit in p["lits"]:
+                    if lit is None or lit[0] == "variant":
+                        continue
+                    ia, truth = lit
+                    if ia not in amap:
+                        continue
+                    kind = summ["atoms"][ia][0]
+                    for sa, swapped in aclass.get(ia, [amap[ia]]):
+                        val = truth if (kind in ("eq", "flag") or kind.startswith("call:") or not swapped) else not truth
+                        if need.get(sa, val) != val or slits.get(sa, val) != val:
+                            okp = False
+                            break
+                        need[sa] = val
+                    if not okp:
+                        break
+                if not okp:
+                    continue
+                joint = dict(slits)
+                joint.update(need)
+                if any(sum(1 for k in grp if joint.get(k)) > 1 for grp in excl):
+                    continue
+                met = True
+                npairs += 1
+                o = p["outcome"]
+                io = "continue" if o[0] == "continue" else rmap.get(pi_)
+                same = (sout[0] == "continue" and io == "continue") or (sout[0] == "return" and io in sout[1])
+                if not same:
+                    desc = "; ".join("%s: %s" % (conds[k][:60], "true" if v_ else "false") for k, v_ in sorted(joint.items()))
+                    chk.violation("algorithm", key + ":decision", "%s: when %s the reference gives `%s`, the implementation `%s`" % (
+                        name, desc or "(no test)", "continue" if sout[0] == "continue" else "return " + " || ".join(sorted(sout[1])), io), where=c["where"])
+                    return 1
+            if not met:
+                desc = "; ".join("%s: %s" % (conds[k][:60], "true" if v_ else "false") for k, v_ in sorted(slits.items()))
+                chk.violation("algorithm", key + ":decision", "%s: when %s the reference gives `%s`, the implementation has no path" % (name, desc, sout), where=c["where"])
+                return 1
+        chk.ok("algorithm", "%s: %d comparison(s) matched, decision function equal on %d compatible path pair(s), %d returned term(s) identical" % (key, len(amap), npairs, len(rmap)), nontrivial=True)
+        return 1
     for assign in itertools.product((False, True), repeat=nsa):
         if any(sum(1 for k in grp if assign[k]) > 1 for grp in excl):
             continue            # mutually exclusive tests cannot both hold
